@@ -147,13 +147,13 @@ def make_worker_setup(verb, meth, mode):
         sess.replies.clear()
         it.hooks["on_spawn"] = None
         # time passes between the 150 reply and the moment the task runs
+        sess.phase = 2  # from here on the spawned task runs; the command phase is over
         it.ctx.muted = True
         sess.on_suspend(it, "task-start")
         it.ctx.muted = False
         del it.ctx.vcs[n_before:]
         sess.owned_streams = []
         sess.track_detach = True
-        sess.phase = 2  # from here on the spawned task runs; the command phase is over
         if verb in ("list", "mlsd"):
             # C07 ghost: record which line the real formatter returned for which entry (the formatter itself runs inline)
             fmt = "build_list_string" if verb == "list" else "build_mlsx_string"
@@ -292,7 +292,7 @@ def define_worker_units():
             spec = LoopSpec(invariants=[("stream-and-file-still-open", loop_inv_open)], havoc=listing_havoc, ghost=listing_ghost)
             c.props = list(c.props) + ["C07"]
         c.loops = {(wq, 0): spec}
-        c.assumptions.append("SEQ: while a transfer task runs, the rest of the session changes only data_connection/extra_workers (no pipelined commands)")
+        c.assumptions.append("SEQ: while a transfer task runs, later commands may change data_connection, extra_workers, the working directory, the pending rename and the type; a re-login (USER) or REST while the transfer is still running is not explored (restart_offset, user, logged are stable)")
 
 
 define_worker_units()
